@@ -55,9 +55,11 @@
 #ifdef VERIF_CTL
 #define V_REQUIRES_WF(x)
 #define V_ENSURES_WF(x)
+#define V_ENSURES_CTL(x) V_ENSURES(x)   /* abstraction used only where the named list is not available */
 #else
 #define V_REQUIRES_WF(x) V_REQUIRES(x)
 #define V_ENSURES_WF(x) V_ENSURES(x)
+#define V_ENSURES_CTL(x)
 #endif
 
 #ifdef VERIF_LEAKY_CALLEES
